@@ -155,32 +155,34 @@ def get_atomic_sequence(xsd_type: Optional[XsdTypeProtocol],
         error: Union[None, ValueError, ArithmeticError] = None
         code = 'FORG0001'
 
-        for value in iter_atomic_values(xsd_type):
-            try:
-                if xsd_type.is_list():
-                    for item in text.split():
-                        yield decode(item)
+        # every literal (every item of a list) is decoded by the first prototype that accepts it
+        values = list(iter_atomic_values(xsd_type))
+        result = []
+        for item in (text.split() if xsd_type.is_list() else [text]):
+            for value in values:
+                try:
+                    result.append(decode(item))
+                except (ArithmeticError, ValueError) as err:
+                    if error is None:
+                        error = err
+                        if isinstance(err, ArithmeticError):
+                            if isinstance(value, dt.AbstractDateTime):
+                                code = 'FODT0001'
+                            elif isinstance(value, dt.Duration):
+                                code = 'FODT0002'
+                            else:
+                                code = 'FOCA0002'
                 else:
-                    yield decode(text)
-            except (ArithmeticError, ValueError) as err:
-                if error is None:
-                    error = err
-                    if isinstance(err, ArithmeticError):
-                        if isinstance(value, dt.AbstractDateTime):
-                            code = 'FODT0001'
-                        elif isinstance(value, dt.Duration):
-                            code = 'FODT0002'
-                        else:
-                            code = 'FOCA0002'
+                    break
             else:
+                if error is not None:
+                    raise xpath_error(code, error, namespaces=namespaces)
+                elif hasattr(xsd_type, 'decode'):
+                    yield xsd_type.decode(text or '')
+                else:
+                    yield dt.UntypedAtomic(text if isinstance(text, str) else '')
                 return
-        else:
-            if error is not None:
-                raise xpath_error(code, error, namespaces=namespaces)
-            elif hasattr(xsd_type, 'decode'):
-                yield xsd_type.decode(text or '')
-            else:
-                yield dt.UntypedAtomic(text if isinstance(text, str) else '')
+        yield from result
 
 
 __all__ = ['get_atomic_sequence']
